@@ -1,0 +1,18 @@
+//go:build verif
+
+package semver
+
+// Machine-checked contracts for this package (checked by /verif/govc; see /verif/DESIGN.md).
+// This file contains comments only; it is compiled only under the build tag "verif".
+
+//@ func compareInt
+//@   comparator a ~ b                                     [C01]
+//@   ensures result == 0 ==> a == b                       [C01]
+//@   ensures result == (a < b ? -1 : (a > b ? 1 : 0))     [C03 C08]
+
+//@ func comparePrerelease
+//@   comparator a ~ b                                     [C01]
+
+//@ func (*Version).Compare
+//@   requires v != nil && other != nil
+//@   comparator v ~ other                                 [C01]
